@@ -256,8 +256,78 @@ class C06(Check):
                 ctx.fail("emulator-hangs", "[%s]" % place)
             except Exception as ex:  # noqa: BLE001
                 ctx.fail("emulator-raises", "[%s] %s: %s" % (place, type(ex).__name__, ex))
+        # ---- an override that moves the INNER link of a chain while the outer link is written with literals
+        if not letslots and len(links) >= 2 and links[0][0] == "slice" and links[0][1] is not None:
+            self.override_inner(n, links, i, ng, ctx)
         ctx.outcome("depth%d:%s" % (len(links), links[-1][0]))
 
+
+CANON_FROZEN_STOP = (2, (("slice", 0, 2, None), ("slice", 0, None, None)), (), 0)
+
+
+def _override_inner(self, n, links, i, ng, ctx):
+    hdr, last2 = build_header(n, links, {(0, 1)})
+    ref2 = last2 if i is None else A.item(last2, i)
+    prog2 = A.prog(hdr, (A.gate("prepare_all"), A.gate("X", ref2), A.gate("measure_all")))
+    m2 = Model(prog2, NATIVES)
+    for delta in (1, -1):
+        ov = {"l01": links[0][1] + delta}
+        try:
+            d2 = m2.den(ov)
+        except Invalid:
+            continue
+        idx2 = [g for g in d2[1] if g[1] == "X"][0][2][0][2]
+        ctx.transition()
+        ctx.trace()
+        problem = None
+        try:
+            c2 = impl.parse(render.text(prog2), inject_pulses=ng)
+            f2 = impl.fill_in_let(c2, ov)
+            q2 = list(f2.body.statements[1].parameters.values())[0]
+            got2 = q2.resolve_qubit()[1]
+            if got2 != idx2:
+                problem = "override %r: resolve_qubit gives %r, model %d" % (ov, got2, idx2)
+            u2 = {k: set(v) for k, v in impl.get_used_qubit_indices(f2.body.statements[1]).items() if v}
+            if problem is None and u2 != {"q": {idx2}}:
+                problem = "override %r: used qubits %r, model {q: {%d}}" % (ov, u2, idx2)
+            with fuel(300000 + 40000 * 4 ** n):
+                r2 = impl.run_jaqal_circuit(f2)
+            pr = [float(x) for x in r2.subcircuits[0].simulated_probability_by_int]
+            if problem is None and abs(pr[1 << idx2] - 1) > 1e-9:
+                problem = "override %r: emulator outcome %d, model %d" % (ov, max(range(len(pr)), key=lambda k: pr[k]), 1 << idx2)
+        except OutOfFuel:
+            problem = "override %r: emulation does not terminate" % (ov,)
+        except Exception as ex:  # noqa: BLE001
+            problem = "override %r: %s: %s" % (ov, type(ex).__name__, ex)
+        if problem is None:
+            continue
+        # Known defect family (KNOWN_FINDINGS.txt): an OMITTED stop of an alias over another alias is frozen at parse
+        # time to the source's size under the declared constants, so after an override that changes the source's
+        # length the outer alias no longer ends where its source ends.  Identified by that shape (some later link is a
+        # slice without a stop) and reported against the canonical minimal chain, provided that chain fails right now.
+        frozen = any(l[0] == "slice" and l[2] is None for l in links[1:])
+        if frozen and (n, links, (), i) != CANON_FROZEN_STOP and self.canonical_frozen_stop_fails(ng):
+            ctx.fail("override-inner-link", problem, case=CANON_FROZEN_STOP)
+        else:
+            ctx.fail("override-inner-link", problem)
+
+
+_CANON = {}
+
+
+def _canonical_frozen_stop_fails(self, ng):
+    if "v" not in _CANON:
+        from mc.framework import Ctx
+        sub = Ctx()
+        sub._case = CANON_FROZEN_STOP
+        n, links, _ls, i = CANON_FROZEN_STOP
+        _override_inner(self, n, links, i, ng, sub)
+        _CANON["v"] = any(c == "override-inner-link" for c, _k, _d in sub.failures)
+    return _CANON["v"]
+
+
+C06.override_inner = _override_inner
+C06.canonical_frozen_stop_fails = _canonical_frozen_stop_fails
 
 CHECK = C06()
 
